@@ -182,3 +182,249 @@ Proof.
     rewrite (app_assoc name [0] r2), rdB_app by reflexivity.
     rewrite last_snoc, N.eqb_refl, removelast_snoc, V, F. reflexivity.
 Qed.
+
+(* ---- avcC *)
+Lemma rd_nalu_wr a r : lenN a < 65536 -> rd_nalu (wr_nalu a ++ r) = Ok (a, r).
+Proof.
+  intros H. unfold rd_nalu, wr_nalu, pbind. rewrite <- app_assoc. rewrite rd2 by lia. rewrite rdB_app by reflexivity. reflexivity.
+Qed.
+
+Lemma rd_many_forall {A} (p : parser A) (e : A -> list N) (ok : A -> Prop) :
+  (forall a r, ok a -> p (e a ++ r) = Ok (a, r)) ->
+  forall l r fuel, Forall ok l -> (length l <= fuel)%nat -> rd_many fuel (lenN l) p (flat_map e l ++ r) = Ok (l, r).
+Proof.
+  intros Hp. induction l as [|a t IH]; intros r fuel Hall Hf.
+  - destruct fuel; reflexivity.
+  - destruct fuel as [|f]; [cbn in Hf; lia|]. cbn [rd_many flat_map]. rewrite lenN_cons.
+    replace (1 + lenN t =? 0) with false by (symmetry; apply N.eqb_neq; lia).
+    inversion Hall; subst. rewrite <- app_assoc, Hp by assumption. replace (1 + lenN t - 1) with (lenN t) by lia.
+    rewrite IH by (try assumption; cbn in Hf; lia). reflexivity.
+Qed.
+
+Lemma lenN_nalus l : lenN (flat_map wr_nalu l) = sumN (map (fun x => 2 + lenN x) l).
+Proof.
+  induction l as [|a l IH]; [reflexivity|]. cbn [flat_map map sumN]. rewrite lenN_app, IH. unfold wr_nalu.
+  rewrite lenN_app, lenN_be_enc. cbn [N.of_nat Pos.of_succ_nat Pos.succ]. lia.
+Qed.
+
+Definition nalu16 (a : list N) : Prop := lenN a < 65536.
+
+Lemma b5_mod n : n < 32 -> N.lor (u8 n) (7 * 32) mod 32 = n /\ N.lor (u8 n) (7 * 32) / 32 = 7 /\ N.lor (u8 n) (7 * 32) < 256.
+Proof.
+  intros H. assert (E : In n (map N.of_nat (seq 0 32))).
+  { apply in_map_iff. exists (N.to_nat n). split; [apply N2Nat.id|]. apply in_seq. lia. }
+  cbn in E. intuition; subst; vm_compute; repeat split; reflexivity.
+Qed.
+
+Lemma tr4 c : c < 4 -> N.lor (63 * 4) c mod 4 = c /\ N.lor (63 * 4) c / 4 = 63 /\ N.lor (63 * 4) c < 256.
+Proof.
+  intros H. assert (E : In c (map N.of_nat (seq 0 4))).
+  { apply in_map_iff. exists (N.to_nat c). split; [apply N2Nat.id|]. apply in_seq. lia. }
+  cbn in E. intuition; subst; vm_compute; repeat split; reflexivity.
+Qed.
+Lemma tr8 c : c < 8 -> N.lor (31 * 8) c mod 8 = c /\ N.lor (31 * 8) c / 8 = 31 /\ N.lor (31 * 8) c < 256.
+Proof.
+  intros H. assert (E : In c (map N.of_nat (seq 0 8))).
+  { apply in_map_iff. exists (N.to_nat c). split; [apply N2Nat.id|]. apply in_seq. lia. }
+  cbn in E. intuition; subst; vm_compute; repeat split; reflexivity.
+Qed.
+
+(* the record as the box holds it: trailing fields only when they are written *)
+Definition avcc_fields_ok (p cf bl bc ne : N) (nt : bool) : Prop :=
+  if avc_plain p then cf = 0 /\ bl = 0 /\ bc = 0 /\ ne = 0 /\ nt = false
+  else if nt then cf = 0 /\ bl = 0 /\ bc = 0 /\ ne = 0
+  else cf < 4 /\ bl < 8 /\ bc < 8 /\ ne = 0.
+
+Lemma avcc_rec_pp p c l sps pps cf bl bc ne nt b :
+  p < 256 -> c < 256 -> l < 256 -> lenN sps < 32 -> lenN pps < 256 -> Forall nalu16 sps -> Forall nalu16 pps ->
+  avcc_fields_ok p cf bl bc ne nt ->
+  body_leaf (LAvcC p c l sps pps cf bl bc ne nt) (dflt_rsv (LAvcC p c l sps pps cf bl bc ne nt)) = Ok b ->
+  avcc_rec b = Ok ((LAvcC p c l sps pps cf bl bc ne nt, [[63]; [7]; [63]; [31]; [31]]), []).
+Proof.
+  intros Hp Hc Hl Hs Hq Fs Fp Hok Hb. cbn [body_leaf dflt_rsv chunk nth hd] in Hb. getb Hb.
+  destruct (b5_mod (lenN sps) Hs) as (B1 & B2 & B3).
+  unfold avcc_rec, pbind, pret, pfail. rewrite <- ?app_assoc.
+  rewrite rd1 by lia. change (negb (1 =? 1)) with false. cbv beta iota.
+  rewrite !rd1 by (try assumption; vm_compute; reflexivity).
+  change (N.lor 3 (63 * 4) mod 4 =? 3) with true. cbn [negb]. cbv beta iota.
+  rewrite rd1 by exact B3. rewrite B1.
+  rewrite (rd_many_forall rd_nalu wr_nalu nalu16 rd_nalu_wr sps) by (try assumption; unfold lenN in Hs; lia).
+  rewrite rd1 by assumption.
+  rewrite (rd_many_forall rd_nalu wr_nalu nalu16 rd_nalu_wr pps) by (try assumption; unfold lenN in Hq; lia).
+  change (N.lor 3 (63 * 4) / 4) with 63. rewrite B2.
+  unfold avcc_fields_ok in Hok. destruct (avc_plain p) eqn:Epl.
+  - destruct Hok as (-> & -> & -> & -> & ->). cbn [orb app]. reflexivity.
+  - destruct nt.
+    + destruct Hok as (-> & -> & -> & ->). cbn [orb app]. reflexivity.
+    + destruct Hok as (H1 & H2 & H3 & ->). cbn [orb]. rewrite app_nil_r.
+      destruct (tr4 cf H1) as (T1 & T2 & T3). destruct (tr8 bl H2) as (U1 & U2 & U3). destruct (tr8 bc H3) as (V1 & V2 & V3).
+      assert (Hne : be_enc 1 (N.lor (63 * 4) cf) ++ be_enc 1 (N.lor (31 * 8) bl) ++ be_enc 1 (N.lor (31 * 8) bc) ++ be_enc 1 0 <> []).
+      { intros E. apply (f_equal (@length N)) in E. rewrite !app_length, !length_be_enc in E. discriminate. }
+      destruct (be_enc 1 (N.lor (63 * 4) cf) ++ be_enc 1 (N.lor (31 * 8) bl) ++ be_enc 1 (N.lor (31 * 8) bc) ++ be_enc 1 0) eqn:Et; [congruence|].
+      rewrite <- Et. rewrite <- (app_nil_r (be_enc 1 0)).
+      rewrite rd1 by exact T3. rewrite rd1 by exact U3. rewrite rd1 by exact V3. rewrite rd1 by lia.
+      change (negb (0 =? 0)) with false. cbv iota. rewrite T1, T2, U1, U2, V1, V2. reflexivity.
+Qed.
+
+Lemma lpp_avcC p c l sps pps cf bl bc ne nt :
+  p < 256 -> c < 256 -> l < 256 -> lenN sps < 32 -> lenN pps < 256 -> Forall nalu16 sps -> Forall nalu16 pps ->
+  avcc_fields_ok p cf bl bc ne nt ->
+  leaf_pp dec_avcC (LAvcC p c l sps pps cf bl bc ne nt).
+Proof.
+  intros Hp Hc Hl Hs Hq Fs Fp Hok.
+  assert (Hsz : forall b, body_leaf (LAvcC p c l sps pps cf bl bc ne nt) (dflt_rsv (LAvcC p c l sps pps cf bl bc ne nt)) = Ok b ->
+                          lenN b + 8 = size_leaf (LAvcC p c l sps pps cf bl bc ne nt)).
+  { intros b Hb. cbn [body_leaf dflt_rsv chunk nth hd] in Hb. getb Hb. cbn [size_leaf].
+    rewrite !lenN_app, !lenN_nalus, !lenN_be_enc. cbn [N.of_nat Pos.of_succ_nat Pos.succ].
+    unfold avcc_fields_ok in Hok. destruct (avc_plain p); cbn [orb]; [change (lenN (@nil N)) with 0; lia|].
+    destruct nt; [change (lenN (@nil N)) with 0; lia|]. rewrite !lenN_app, !lenN_be_enc. cbn [N.of_nat Pos.of_succ_nat Pos.succ].
+    change (lenN (@nil N)) with 0. lia. }
+  eexists. split; [reflexivity|]. split; [apply Hsz; reflexivity|].
+  intros r2. unfold dec_avcC, pbind, payload_len. cbn [h_size h_len hdr8].
+  match goal with |- context [rdB _ (?b ++ r2)] => replace (size_leaf (LAvcC p c l sps pps cf bl bc ne nt) - 8) with (lenN b)
+      by (pose proof (Hsz b eq_refl); lia) end.
+  rewrite rdB_app by reflexivity.
+  rewrite (avcc_rec_pp p c l sps pps cf bl bc ne nt) by (try assumption; reflexivity). reflexivity.
+Qed.
+
+(* ---- hvcC (C01's typed leaf) *)
+Definition narr_ok (a : N * list (list N)) : Prop := fst a < 256 /\ lenN (snd a) < 65536 /\ Forall nalu16 (snd a).
+
+Lemma length_nalus l r : (length l <= length (flat_map wr_nalu l ++ r))%nat.
+Proof.
+  induction l as [|a l IH]; [cbn; lia|]. cbn [flat_map length]. unfold wr_nalu at 1.
+  rewrite <- !app_assoc, !app_length, length_be_enc. rewrite app_length in IH. lia.
+Qed.
+
+Lemma rd_narr_wr a r : narr_ok a -> rd_narr (wr_narr a ++ r) = Ok (a, r).
+Proof.
+  intros (H1 & H2 & H3). destruct a as [ct nalus]. cbn [fst snd] in *.
+  unfold rd_narr, wr_narr, pbind, pret. cbn [fst snd]. rewrite <- !app_assoc.
+  rewrite rd1 by exact H1. rewrite rd2 by exact H2.
+  rewrite (rd_many_forall rd_nalu wr_nalu nalu16 rd_nalu_wr nalus) by (try assumption; pose proof (length_nalus nalus r); lia).
+  reflexivity.
+Qed.
+
+Lemma lenN_narrs l : lenN (flat_map wr_narr l) = sumN (map (fun a => 3 + sumN (map (fun x => 2 + lenN x) (snd a))) l).
+Proof.
+  induction l as [|a l IH]; [reflexivity|]. cbn [flat_map map sumN]. rewrite lenN_app, IH. unfold wr_narr.
+  rewrite !lenN_app, !lenN_be_enc, lenN_nalus. cbn [N.of_nat Pos.of_succ_nat Pos.succ]. lia.
+Qed.
+
+Definition hb1 (sp : N) (tier : bool) (idc : N) : N := N.lor (N.lor (u8 (sp * 64)) (if tier then 32 else 0)) idc.
+Definition hb1_check (sp : N) (tier : bool) (idc : N) : bool :=
+  let a := hb1 sp tier idc in
+  ((a / 64) mod 4 =? sp) && Bool.eqb ((a / 32) mod 2 =? 1) tier && (a mod 32 =? idc) && (a <? 256).
+Lemma hb1_all : forallb (fun s => forallb (fun p => hb1_check s true p && hb1_check s false p) (map N.of_nat (seq 0 32)))
+                        (map N.of_nat (seq 0 4)) = true.
+Proof. vm_compute. reflexivity. Qed.
+Lemma in_rng (n : nat) (x : N) : x < N.of_nat n -> In x (map N.of_nat (seq 0 n)).
+Proof. intros H. apply in_map_iff. exists (N.to_nat x). split; [apply N2Nat.id|]. apply in_seq. lia. Qed.
+Lemma hb1_ok sp tier idc : sp < 4 -> idc < 32 -> hb1_check sp tier idc = true.
+Proof.
+  intros Hs Hp. pose proof hb1_all as A. rewrite forallb_forall in A.
+  specialize (A sp (in_rng 4 sp ltac:(lia))). rewrite forallb_forall in A.
+  specialize (A idc (in_rng 32 idc ltac:(lia))). apply andb_true_iff in A. destruct tier; tauto.
+Qed.
+
+Definition hb21 (cfr ntl tin : N) : N := N.lor (N.lor (N.lor (u8 (cfr * 64)) (u8 (ntl * 8))) (u8 (tin * 4))) 3.
+Definition hb21_check (cfr ntl tin : N) : bool :=
+  let b := hb21 cfr ntl tin in
+  (b mod 4 =? 3) && ((b / 64) mod 4 =? cfr) && ((b / 8) mod 8 =? ntl) && ((b / 4) mod 2 =? tin) && (b <? 256).
+Lemma hb21_all : forallb (fun c => forallb (fun n => forallb (fun t => hb21_check c n t) (map N.of_nat (seq 0 2)))
+                                           (map N.of_nat (seq 0 8))) (map N.of_nat (seq 0 4)) = true.
+Proof. vm_compute. reflexivity. Qed.
+Lemma hb21_ok cfr ntl tin : cfr < 4 -> ntl < 8 -> tin < 2 -> hb21_check cfr ntl tin = true.
+Proof.
+  intros H1 H2 H3. pose proof hb21_all as A. rewrite forallb_forall in A.
+  specialize (A cfr (in_rng 4 cfr ltac:(lia))). rewrite forallb_forall in A.
+  specialize (A ntl (in_rng 8 ntl ltac:(lia))). rewrite forallb_forall in A.
+  exact (A tin (in_rng 2 tin ltac:(lia))).
+Qed.
+
+Lemma mss_ok m : m < 4096 -> N.lor (15 * 4096) m mod 4096 = m /\ N.lor (15 * 4096) m / 4096 = 15 /\ N.lor (15 * 4096) m < 65536.
+Proof.
+  intros H. change (15 * 4096) with (15 * 2 ^ 12). rewrite lor_shifted_add by (change (2 ^ 12) with 4096; lia).
+  change (2 ^ 12) with 4096. repeat split; lia.
+Qed.
+
+Lemma hvcc_rec_pp sp tier idc compat cstr lvl mss par chroma bdl bdc afr cfr ntl tin arrays b :
+  sp < 4 -> idc < 32 -> compat < 4294967296 -> cstr < 281474976710656 -> lvl < 256 -> mss < 4096 -> par < 4 ->
+  chroma < 4 -> bdl < 8 -> bdc < 8 -> afr < 65536 -> cfr < 4 -> ntl < 8 -> tin < 2 ->
+  lenN arrays < 256 -> Forall narr_ok arrays ->
+  body_leaf (LHvcC sp tier idc compat cstr lvl mss par chroma bdl bdc afr cfr ntl tin arrays)
+            (dflt_rsv (LHvcC sp tier idc compat cstr lvl mss par chroma bdl bdc afr cfr ntl tin arrays)) = Ok b ->
+  hvcc_rec b = Ok ((LHvcC sp tier idc compat cstr lvl mss par chroma bdl bdc afr cfr ntl tin arrays,
+                    [[15]; [63]; [63]; [31]; [31]]), []).
+Proof.
+  intros H1 H2 H3 H4 H5 H6 H7 H8 H9 H10 H11 H12 H13 H14 H15 Fa Hb.
+  cbn [body_leaf dflt_rsv chunk nth hd] in Hb. getb Hb.
+  fold (hb1 sp tier idc). fold (hb21 cfr ntl tin).
+  pose proof (hb1_ok sp tier idc H1 H2) as B1. pose proof (hb21_ok cfr ntl tin H12 H13 H14) as B21.
+  unfold hb1_check in B1. unfold hb21_check in B21. cbv zeta in B1, B21.
+  repeat (apply andb_true_iff in B1; let K := fresh "K" in destruct B1 as [B1 K]).
+  repeat (apply andb_true_iff in B21; let K := fresh "L" in destruct B21 as [B21 K]).
+  repeat match goal with h : (_ =? _) = true |- _ => apply N.eqb_eq in h end.
+  repeat match goal with h : (_ <? _) = true |- _ => apply N.ltb_lt in h end.
+  match goal with h : Bool.eqb _ _ = true |- _ => apply Bool.eqb_prop in h; rename h into Ht end.
+  destruct (mss_ok mss H6) as (M1 & M2 & M3).
+  destruct (tr4 par H7) as (P1 & P2 & P3). destruct (tr4 chroma H8) as (C1 & C2 & C3).
+  destruct (tr8 bdl H9) as (D1 & D2 & D3). destruct (tr8 bdc H10) as (E1 & E2 & E3).
+  unfold hvcc_rec, pbind, pret, pfail. rewrite <- ?app_assoc. rewrite app_nil_r.
+  rewrite rd1 by lia. change (negb (1 =? 1)) with false. cbv beta iota.
+  rewrite rd1 by assumption. rewrite rd4 by assumption.
+  rewrite (rd_be 6 cstr) by (change (256 ^ N.of_nat 6) with 281474976710656; assumption).
+  rewrite rd1 by assumption. rewrite rd2 by assumption.
+  rewrite rd1 by assumption. rewrite rd1 by assumption. rewrite rd1 by assumption. rewrite rd1 by assumption.
+  rewrite rd2 by assumption. rewrite rd1 by assumption.
+  rewrite B21. change (negb (3 =? 3)) with false. cbv beta iota.
+  rewrite rd1 by assumption.
+  rewrite <- (app_nil_r (flat_map wr_narr arrays)).
+  rewrite (rd_many_forall rd_narr wr_narr narr_ok rd_narr_wr arrays) by (try assumption; unfold lenN in H15; lia).
+  rewrite B1, Ht, M1, M2, P1, P2, C1, C2, D1, D2, E1, E2.
+  repeat match goal with h : _ mod _ = _ |- _ => rewrite h end. reflexivity.
+Qed.
+
+Lemma lpp_hvcC sp tier idc compat cstr lvl mss par chroma bdl bdc afr cfr ntl tin arrays :
+  sp < 4 -> idc < 32 -> compat < 4294967296 -> cstr < 281474976710656 -> lvl < 256 -> mss < 4096 -> par < 4 ->
+  chroma < 4 -> bdl < 8 -> bdc < 8 -> afr < 65536 -> cfr < 4 -> ntl < 8 -> tin < 2 ->
+  lenN arrays < 256 -> Forall narr_ok arrays ->
+  leaf_pp dec_hvcC (LHvcC sp tier idc compat cstr lvl mss par chroma bdl bdc afr cfr ntl tin arrays).
+Proof.
+  intros H1 H2 H3 H4 H5 H6 H7 H8 H9 H10 H11 H12 H13 H14 H15 Fa.
+  set (L := LHvcC sp tier idc compat cstr lvl mss par chroma bdl bdc afr cfr ntl tin arrays).
+  assert (Hsz : forall b, body_leaf L (dflt_rsv L) = Ok b -> lenN b + 8 = size_leaf L).
+  { intros b Hb. subst L. cbn [body_leaf dflt_rsv chunk nth hd] in Hb. getb Hb. cbn [size_leaf].
+    rewrite !lenN_app, lenN_narrs, !lenN_be_enc. cbn [N.of_nat Pos.of_succ_nat Pos.succ].
+    change (lenN (@nil N)) with 0. lia. }
+  eexists. split; [reflexivity|]. split; [apply Hsz; reflexivity|].
+  intros r2. unfold dec_hvcC, pbind, payload_len. cbn [h_size h_len hdr8].
+  match goal with |- context [rdB _ (?b ++ r2)] => replace (size_leaf L - 8) with (lenN b)
+      by (pose proof (Hsz b eq_refl); lia) end.
+  rewrite rdB_app by reflexivity. subst L.
+  rewrite (hvcc_rec_pp sp tier idc compat cstr lvl mss par chroma bdl bdc afr cfr ntl tin arrays) by (try assumption; reflexivity).
+  reflexivity.
+Qed.
+
+(* ---- elng (full box: version/flags 0, language of two or more non-NUL bytes) *)
+Lemma zt_lang lang r : Forall (fun c => c <> 0) lang -> zt (lang ++ 0 :: r) (lenN lang + 1) = Ok (lang, r).
+Proof.
+  induction lang as [|c lang IH]; intros H.
+  - cbn [app zt]. change (lenN (@nil N) + 1 =? 0) with false. cbv iota. rewrite N.eqb_refl. reflexivity.
+  - inversion H; subst. cbn [app zt]. rewrite lenN_cons.
+    replace (1 + lenN lang + 1 =? 0) with false by (symmetry; apply N.eqb_neq; lia).
+    replace (c =? 0) with false by (symmetry; apply N.eqb_neq; assumption).
+    replace (1 + lenN lang + 1 - 1) with (lenN lang + 1) by lia. rewrite IH by assumption. reflexivity.
+Qed.
+
+Lemma lpp_elng lang : 2 <= lenN lang -> Forall (fun c => c <> 0) lang -> leaf_pp dec_elng (LElng false 0 0 lang).
+Proof.
+  intros Hl Hn. start_pp.
+  - cbn [dflt_rsv chunk nth size_leaf]. lens. change (lenN [0]) with 1. lia.
+  - intros r2. cbn [dflt_rsv chunk nth]. unfold dec_elng, pbind, pret, pfail, payload_len, rd_zt. cbn [h_size h_len hdr8 size_leaf].
+    replace (8 + 4 + lenN lang + 1 - 0 - 8 <? 7) with false by (symmetry; apply N.ltb_ge; lia).
+    change (N.lor (u32 (0 * 16777216)) 0) with 0. rewrite <- !app_assoc. rewrite rd4 by lia.
+    change (negb (0 =? 0)) with false. cbv beta iota.
+    replace (8 + 4 + lenN lang + 1 - 0 - 8 - 4) with (lenN lang + 1) by lia.
+    cbn [app]. rewrite zt_lang by assumption. reflexivity.
+Qed.
